@@ -299,6 +299,24 @@ def run(ctx):
                 got_files = {k: v[2] for k, v in det[1]} if isinstance(det, tuple) and det[:1] == ("kwdict",) else det
                 if got_files != {"f": (b1,)}:
                     problems.add(f"the outcome is replayed with the attachments {got_files!r}; expected the chunk received for 'f'")
+    # an 'exists' announcement for a test that is already under way changes nothing about it
+    for stop_only in (False, True):
+        hist2 = [E(T, status=IP, file_name=f_, file_bytes=b1, mime=m1, ts=t1), E(T, status=st_("exists"), ts=t2)] + ([] if stop_only else [E(T, status=OK, ts=t3)])
+        d3, runs3 = run_history(sted, [("wobj", "decorated")], hist2)
+        for r in runs3:
+            if r.kind == "exc":
+                problems.add(f"StreamToExtendedDecorator raises {r.value!r}")
+                continue
+            calls_ = so.logged(r, "decorated.")
+            ocs = [c_ for c_ in calls_ if c_[0].startswith("add")]
+            if len(ocs) != 1 or len([c_ for c_ in calls_ if c_[0] == "startTest"]) != 1:
+                problems.add(f"a test announced again ('exists') while in progress is replayed {len(ocs)} time(s) ({[c_[0] for c_ in calls_]}); expected once, "
+                             + ("as incomplete when the run stops" if stop_only else "when its final status arrives"))
+                continue
+            det = d3.dom.describe(d3.it, dict(ocs[0][2]).get("details"), r.state, d3.fr)
+            got_files = {k: v[2] for k, v in det[1]} if isinstance(det, tuple) and det[:1] == ("kwdict",) else det
+            if not (isinstance(got_files, dict) and got_files.get("f") == (b1,)):
+                problems.add(f"the attachment received before the 'exists' announcement is lost (replayed attachments: {got_files!r})")
     for cls_, ctor in ((ss, []), (s2d, [so.ON_TEST]), (sted, [("wobj", "decorated")])):
         dom = so.StreamDomain(classes, accepting=("decorated",))
         d2 = so.Driver(ctx, cls_, dom)
